@@ -388,5 +388,12 @@ def r08_9(ctx):
                  ar.loc(n)) if extra else ctx.ok(construct, ar.loc(n)))
 
 
+def r08_10(ctx):
+    """R08.10 `promptless` is decided over all definitions of an option in the loader (C02 R02.9b): an option whose prompt
+    sits on its second definition is a prompted option - its default-marked entry is compared and kept like any other."""
+    from . import c02
+    from .common import delegate
+    delegate(ctx, c02.r02_9, lambda c: "prompt tests quantify" in c)
+
 def rules():
-    return [("R08.9", r08_9, 5), ("R08.1", r08_1, 2), ("R08.2", r08_2, 2), ("R08.3", r08_3, 8), ("R08.5", r08_5, 3), ("R08.6", r08_6, 8), ("R08.7", r08_7, 6), ("R08.8", r08_8, 1)]
+    return [("R08.10", r08_10, 3), ("R08.9", r08_9, 5), ("R08.1", r08_1, 2), ("R08.2", r08_2, 2), ("R08.3", r08_3, 8), ("R08.5", r08_5, 3), ("R08.6", r08_6, 8), ("R08.7", r08_7, 6), ("R08.8", r08_8, 1)]
